@@ -355,9 +355,9 @@ PROPS["C08"] = {
     "judge": judge_c01,
     "trusted_base": PLONK_TB + ["the prover-side lookup columns (RE/Sum/LDC, multiplicities) are not modelled: tied through the verifier model's check_lookup_constraints and the honest-flow oracle (partial)"],
     "level_text": "Lean 4: check_lookup_constraints / get_lut_poly inside the verifier model, lookup semantics in evalProg; dedicated lookup circuits (1-4 tables of 1..2 rows' worth, duplicate outputs, an input shared by all tables with different outputs; lookup counts at exact multiples of the slot count, +-1, heavy repetition, single used entry; 80 and 50 routed wires, 2-3 challenges) must prove, verify and carry the table's values (Rust evaluation, Lean evalProg, Lean verifier accepts); lookup outputs replaced class-wide by a wrong value or by ANOTHER table's value for the same input must be rejected by both verifiers",
-    "level_note": "logUp / RE-polynomial / telescoping theorems are being added; until then the lookup algebra is tied by correspondence only. Tables with duplicate inputs are outside the property (a table is a function).",
+    "level_note": "Found with this machinery and repaired in /repo: F-C08-1, a SOUNDNESS break of the lookup argument (initial Sum/LDC accumulator value not pinned: an adversarial prover got wrong (input, output) pairs accepted at the standard configuration); the adversarial prover is the guarded hook verif_hooks::SLDC_COMPENSATE and stays part of the check. logUp / RE-polynomial / telescoping theorems are being added; until then the lookup algebra is tied by correspondence only. Tables with duplicate inputs are outside the property (a table is a function).",
     "assumptions": ["FRI proximity soundness", "random oracle"],
-    "rule": "8 (thorough 40) lookup circuits x positive flow + 4-6 lookup-specific corruptions; distinct = distinct request lines",
+    "rule": "adversarial prover (hook): per lookup circuit 2 wrong looked-up pairs x {honest prover, accumulator-offset prover}; 8 (thorough 40) lookup circuits x positive flow + 4-6 lookup-specific corruptions; distinct = distinct request lines",
 }
 
 def judge_c17(d):
